@@ -1,8 +1,8 @@
 ------------------------------ MODULE MC_Mxss ------------------------------
 (* Bounded-exhaustive exploration of the COMPOSED specification                               *)
 (*    parse -> walk -> sanitize -> [omit optional tags] -> serialize -> re-parse              *)
-(* over inputs that are concatenations of <= MaxFrags fragments of the mutation-XSS alphabet  *)
-(* (every prefix is a state).  In every state, for every first-parse mode x option vector x   *)
+(* over inputs that are concatenations of <= depth fragments of a mutation-XSS alphabet      *)
+(* (every prefix is a state; one exploration per entry of Cfg.runs = [alphabet, depth, lists]).  In every state, for every first-parse mode x option vector x   *)
 (* re-parse mode of the configuration file: the property (SafeTree and Corresponds on the     *)
 (* re-parsed tree) - a theorem of the intended configuration (KnownDefects = {}) - and the    *)
 (* export of the behaviour (input, output text, flat re-parsed trees, violated clauses) for   *)
@@ -10,7 +10,7 @@
 (* The configuration (fragments, allow-lists of the Filter instance projected on the names of *)
 (* the alphabet, option vectors, modes) is DATA read from a JSON file: IOEnv.MXSS_CFG.        *)
 EXTENDS Mxss, TLC, Json, IOUtils
-CONSTANTS MaxFrags, Alphabet, Lists, Export
+CONSTANTS Export
 
 Cfg == JsonDeserialize(IOEnv.MXSS_CFG)
 ToSet(s) == {s[i] : i \in 1..Len(s)}
@@ -19,16 +19,19 @@ NsDec(x) == CASE x = <<-2>> -> NS_html [] x = <<-3>> -> NS_svg [] x = <<-4>> -> 
 Pairs(s) == {<<NsDec(s[i][1]), s[i][2]>> : i \in 1..Len(s)}
 Lof(r) == [el |-> Pairs(r.el), at |-> Pairs(r.at), uri |-> Pairs(r.uri), ref |-> Pairs(r.ref), loc |-> ToSet(r.loc),
            prot |-> ToSet(r.prot), ct |-> ToSet(r.ct), cp |-> ToSet(r.cp), ck |-> ToSet(r.ck), sp |-> ToSet(r.sp)]
-L == Lof(Cfg.lists[Lists])
-Frags == ToSet(Cfg.alphabets[Alphabet])
+\* Cfg.runs: Seq of [alphabet, depth, lists]: the explorations of this TLC run (one initial state each)
+LDefault  == Lof(Cfg.lists.default)
+LExtended == Lof(Cfg.lists.extended)
 Firsts == Cfg.firsts            \* Seq of [cx, scr]
 Opts == Cfg.opts                \* Seq of option vectors
 Reparses == Cfg.reparses        \* Seq of [cx, scr]
 
-VARIABLES src, n
-vars == <<src, n>>
-Init == src = <<>> /\ n = 0
-Next == n < MaxFrags /\ \E f \in Frags : src' = src \o f /\ n' = n + 1
+VARIABLES src, n, run
+vars == <<src, n, run>>
+Init == src = <<>> /\ n = 0 /\ run \in 1..Len(Cfg.runs)
+Next == /\ n < Cfg.runs[run].depth /\ UNCHANGED run
+        /\ \E f \in ToSet(Cfg.alphabets[Cfg.runs[run].alphabet]) : src' = src \o f /\ n' = n + 1
+L == IF Cfg.runs[run].lists = "default" THEN LDefault ELSE LExtended
 
 \* Next to the configured pipeline (KnownDefects of the .cfg: {} = the intended design, or the listed deviations = the
 \* code-faithful model) the same run evaluates the pipeline with exactly the deviations that matter for C10 repaired and
@@ -36,6 +39,12 @@ Next == n < MaxFrags /\ \E f \in Frags : src' = src \o f /\ n' = n + 1
 \* harness's neutralised re-runs of the real code must reproduce.
 Relevant == MxssDefectNames \cup {"ser-attr-prefix-dropped", "ser-cdata-bare-name", "ser-noscript-raw"}
 I == INSTANCE Mxss WITH KnownDefects <- KnownDefects \ Relevant
+
+\* the tags passed by a are, in order, tags passed by b (same element, attributes not compared)
+RECURSIVE SubFrom(_, _, _, _)
+SubFrom(a, b, i, j) == IF i > Len(a) THEN TRUE ELSE IF j > Len(b) THEN FALSE
+                       ELSE IF a[i].ns = b[j].ns /\ a[i].n = b[j].n THEN SubFrom(a, b, i + 1, j + 1) ELSE SubFrom(a, b, i, j + 1)
+SubKeys(a, b) == SubFrom(a, b, 1, 1)
 
 \* Cfg.plan: Seq of [f: index into Firsts, o: index into Opts, rs: Seq of indices into Reparses]
 Plan == Cfg.plan
@@ -57,11 +66,12 @@ Entry(pi) ==
         same == outI = outC /\ Passed(stI) = Passed(stC)
         jI   == IF same THEN jC ELSE JudgeOut(outI, Passed(stI), e.rs)
     IN [out |-> outC, rp |-> jC, iout |-> outI, isame |-> same, iok |-> \A j \in 1..Len(jI) : jI[j].cl = {},
-        npass |-> Len(Passed(stC))]
+        npass |-> Len(Passed(stC)), sub |-> SubKeys(Passed(stI), Passed(stC))]
 Runs == [pi \in 1..Len(Plan) |-> Entry(pi)]
 
 \* THE THEOREM (intended design): the re-parsed tree is safe and every element corresponds to a passed tag
 ThmSafeAndCorresponds == \A pi \in 1..Len(Plan) : Runs[pi].iok
-\* in the configured pipeline every failure is one the intended design avoids (no unexplained failure at model level)
-ThmExport == Export => PrintT(ToJson([src |-> src, runs |-> Runs]))
+\* the intended design only ever escapes MORE than the code: what it lets through, the code lets through
+ThmIntendedOnlyEscapesMore == \A pi \in 1..Len(Plan) : Runs[pi].sub
+ThmExport == Export => PrintT(ToJson([src |-> src, run |-> run, runs |-> Runs]))
 =============================================================================
